@@ -26,3 +26,11 @@ Theorem C01_F3_block_reduced : forall (R : ringType) (A x b Df Dp xp : R),
   Df * A * (Df * x) = Df * b - Df * A * xp.
 Proof. exact block_reduced. Qed.
 Print Assumptions C01_F3_block_reduced.
+
+(* EigenSolve eigenvalue sensitivities: (l' - l) p^T B q' = p^T ((A'-A) - l' (B'-B)) q'  (l, l' scalars) *)
+Theorem C01_F3_eigenvalue_secant : forall (R : ringType) (A A' B B' p q' l l' : R),
+  (forall x, l * x = x * l) -> (forall x, l' * x = x * l') ->
+  p * (A - l * B) = 0 -> (A' - l' * B') * q' = 0 ->
+  (l' - l) * (p * B * q') = p * ((A' - A) - l' * (B' - B)) * q'.
+Proof. exact eigenvalue_secant. Qed.
+Print Assumptions C01_F3_eigenvalue_secant.
